@@ -106,6 +106,80 @@ def analyse32(ck):
     return ob
 
 
+def _carrier(ty):
+    """a type that can hold a mutable pointer into someone else's storage: `&mut T`, `Option<&mut T>`, `IterMut<T>`, `&mut IterMut<..>` …"""
+    return "&mut" in ty or "*mut" in ty or "Mut<" in ty
+
+
+def _op_local(o):
+    pl = isinstance(o, dict) and (o.get("c") or o.get("m"))
+    return pl["l"] if pl else None
+
+
+def _derived_pointers(body, roots):
+    """locals of `body` that hold a mutable pointer DERIVED from one of the `roots` (pointer-typed locals): reborrows of a place reached
+    through such a pointer, moves of the pointer, and results of calls that were handed one and return a pointer-carrying type (an
+    elided lifetime ties the returned `&mut` to the `&mut` argument).  A value COPIED out of the pointee (`let mut b = *self.0`) is
+    not a pointer: scrubbing it leaves the original untouched."""
+    S = set(roots)
+    changed = True
+    while changed:
+        changed = False
+        for blk in body.blocks:
+            if blk["cleanup"]:
+                continue
+            for s in blk["s"]:
+                r, d = s.get("r"), s.get("d")
+                if not r or not d or d["p"] or d["l"] in S:
+                    continue
+                ok = False
+                if r["k"] == "ref" and r.get("mut") and r["p"]["l"] in S:
+                    ok = True
+                elif r["k"] == "use" and _op_local(r.get("a")) in S and _carrier(body.local_ty(d["l"])):
+                    ok = True
+                elif r["k"] == "cast" and _op_local(r.get("a")) in S and _carrier(body.local_ty(d["l"])):
+                    ok = True
+                if ok:
+                    S.add(d["l"])
+                    changed = True
+            t = blk["t"]
+            if t["k"] == "call" and t.get("dest") and not t["dest"]["p"] and t["dest"]["l"] not in S:
+                if any(_op_local(a) in S for a in t["args"]) and _carrier(body.local_ty(t["dest"]["l"])):
+                    S.add(t["dest"]["l"])
+                    changed = True
+    return S
+
+
+def scrubs_in_place(prog, e, root_body, root_local):
+    """the zeroize call `e` writes THROUGH a mutable pointer derived from `root_local` of `root_body` (not into a copy of the bytes).
+    The call may sit in root_body itself or in a closure that root_body hands to a call whose receiver is such a pointer
+    (`self.0.iter_mut().for_each(|f| f.0.zeroize())`)."""
+    body = e.frame.body
+    arg = _op_local(e.raw["args"][0])
+    if body.id == root_body.id:
+        return arg in _derived_pointers(body, {root_local})
+    if body.kind != "Closure" or body.d.get("parent", body.d.get("root")) != root_body.id:
+        return False
+    S = _derived_pointers(root_body, {root_local})
+    handed = False
+    held = set()
+    for blk in root_body.blocks:
+        for s in blk["s"]:
+            r = s.get("r") or {}
+            if r.get("k") == "agg" and r["ak"].get("t") == "closure" and r["ak"].get("id") == body.id:
+                held.add(s["d"]["l"])
+            elif r.get("k") == "use" and _op_local(r.get("a")) in held and not s["d"]["p"]:
+                held.add(s["d"]["l"])
+    for blk in root_body.blocks:
+        t = blk["t"]
+        if t["k"] == "call" and any(_op_local(a) in held for a in t["args"]) and any(_op_local(a) in S for a in t["args"]):
+            handed = True
+    if not handed:
+        return False
+    roots = set(i for i in range(2, body.argc + 1) if _carrier(body.local_ty(i)))
+    return arg in _derived_pointers(body, roots)
+
+
 def analyse33(ck):
     ob = Ob()
     prog = ck.prog
@@ -115,14 +189,16 @@ def analyse33(ck):
         ob.add({"C33"}, len(d) == 1 and not d[0]["derived"], "ITEM", "drop/" + ty, "%s has a Drop impl" % ty, "%s:%s" % (d[0]["file"], d[0]["line"]) if d else None)
     sd = e2.MethodView(ck, r"sensitive::Secret as core::ops::drop::Drop>::drop$", CIRC)
     z = [e for e in sd.effects if e.raw.get("name") == "zeroize"]
-    ob.add({"C33"}, len(z) == 1 and P.param_path(z[0].args[0]) == "self.0" and not circ.uncond_problems(z[0]), "TERM", "drop/secret-zeroizes-all", "Secret::drop zeroizes self.0 (the whole 32-byte array), unconditionally", z[0].loc if z else sd.loc0)
+    ob.add({"C33"}, len(z) == 1 and P.param_path(z[0].args[0]) == "self.0" and not circ.uncond_problems(z[0]) and scrubs_in_place(prog, z[0], sd.body, 1), "TERM", "drop/secret-zeroizes-all",
+           "Secret::drop zeroizes self.0 (the whole 32-byte array), unconditionally and in place (through a mutable borrow derived from `self`, not a copy of the bytes)", z[0].loc if z else sd.loc0)
     fd = e2.MethodView(ck, r"sensitive::SensitiveFelts as core::ops::drop::Drop>::drop$", CIRC)
     z = [e for e in fd.effects if e.raw.get("name") == "zeroize"]
     ok = len(z) == 1
     if ok:
         lp = circ.loops_of(z[0])
         ok = len(lp) == 1 and P.param_path(lp[0]) == "self.0" and P.norm(z[0].args[0]) == ("fld", ("elem", lp[0]), "0") and not [c for c in circ.uncond_problems(z[0])]
-    ob.add({"C33"}, ok, "TERM", "drop/felts-zeroizes-every-element", "SensitiveFelts::drop zeroizes the inner u64 of every element of self.0 (loop over the whole vector, no early exit)", z[0].loc if z else fd.loc0)
+        ok = ok and scrubs_in_place(prog, z[0], fd.body, 1)
+    ob.add({"C33"}, ok, "TERM", "drop/felts-zeroizes-every-element", "SensitiveFelts::drop zeroizes the inner u64 of every element of self.0 (loop over the whole vector, no early exit), in place (through `iter_mut`-style mutable borrows, not copies)", z[0].loc if z else fd.loc0)
     # not clonable
     for ty in ("sensitive::Secret", "nullifier::Nullifier", "unspendable_account::UnspendableAccount", "inputs::PrivateCircuitInputs", "inputs::CircuitInputs"):
         hits = [i.get("trait_ref") for i in prog.impls_of(ty) if (i.get("trait") or "").rsplit("::", 1)[-1] in ("Clone", "Copy")]
@@ -131,6 +207,7 @@ def analyse33(ck):
     sn = e2.MethodView(ck, r"sensitive::Secret::new$", CIRC)
     z = sn.calls(lambda t: t.get("name") == "zeroize")
     ok = len(z) == 1 and P.norm(sn.fr.operand_term(z[0][1]["args"][0])) == sn.param(1) and cfg.postdominates(sn.body, z[0][0], 0)
+    ok = ok and _op_local(z[0][1]["args"][0]) in _derived_pointers(sn.body, {1})   # the caller's buffer itself, not a copy of it
     early = [g for g in sn.gt if g["outcome"] & {"err"}]
     ob.add({"C33"}, ok and not [g for g in early if not cfg.dominates(sn.body, z[0][0], g["bb"])], "DOM", "secret-new/zeroize-postdominates", "Secret::new zeroizes the caller's buffer on every path (the call post-dominates entry; no `?` before it)", sn.body.loc(z[0][0]) if z else sn.loc0)
     # return-type rule for functions that expose secret bytes
